@@ -300,7 +300,7 @@ void explore_f(Ctx &ctx, const char *family) {
         for (size_t mlen : all) {
             bool full = mlen <= 96;
             if (pk_slow && mlen > 65 && !ctx.thorough() && mlen != 257) continue;
-            size_t adlen = (mlen * 5 + vi) % 40;
+            size_t adlen = mlen <= 96 ? (mlen * 5 + vi) % 40 : (mlen * 7 + vi * 13) % 700;      // long tuples also carry long associated data (sampled bit positions)
             for (unsigned long mask : masks) {
                 uint64_t cs = r.next();
                 if (mask != masks[0] && !(std::string(V.name).find("aegis") != std::string::npos || std::string(V.name).find("aes256gcm") != std::string::npos || ctx.thorough())) continue;
